@@ -215,3 +215,9 @@ pub mod docs {
     #[doc = include_str!("../docs/security.md")]
     pub mod security {}
 }
+
+/// Hooks for the external verification harness in `/verif`. Only compiled with
+/// `RUSTFLAGS="--cfg rten_verif"`; ordinary builds are unaffected.
+#[cfg(rten_verif)]
+#[doc(hidden)]
+pub mod verif;
